@@ -45,9 +45,16 @@ def curve_family (rng):
         R    = segl * 5 / (2 * np.pi)
         c    = dict ( k = 'h', n = n, length = abs (turn) * n / 7.0 * float (rng.choice ([1, -1])), turn = turn, r = rad
                     , rx1 = R, ry1 = R * float (rng.uniform (0.7, 1.3)), tag = None)
-        if rng.random () < 0.5:
-            c ['rx2'] = R * 1.5
-            c ['ry2'] = R * 1.2
+        # cross sections: elliptic / circular, the same at both ends / conical / general
+        shape = int (rng.integers (0, 5))
+        if shape in (1, 2):
+            c ['ry1'] = R
+        if shape == 2:
+            c ['rx2'] = c ['ry2'] = R * float (rng.choice ([1.5, 0.6]))
+        elif shape == 3:
+            c ['rx2'], c ['ry2'] = R * 1.5, R * 1.2
+        elif shape == 4:
+            c ['rx2'], c ['ry2'] = c ['rx1'] * 1.4, c ['ry1'] * 1.4
     nd = georef.nodes_of (c)
     geo.append (c)
     for e, p, q in ((0, nd [0], nd [1]), (1, nd [-1], nd [-2])):
